@@ -177,7 +177,7 @@ def replay_c03(ctx, fl):
             return None
         return [("a %d-byte prefix/extension of the true digest" % n, (true + true)[:n])]
     ml, l1, l2, lp = (wlen("md5", 16) if mask & 1 else 16), (wlen("sha1", 40) if mask & 2 else 40), (wlen("sha256", 64) if mask & 4 else 64), (wlen("pd", 64) if mask & 8 else 64)
-    pd_cands = [("true", true_pd), ("wrong", b"f" * 64 if true_pd != b"f" * 64 else b"e" * 64)] if lp == 64 else fit(true_pd, lp, 64)
+    pd_cands = [("true", true_pd), ("wrong", b"f" * 64 if true_pd != b"f" * 64 else b"e" * 64), ("upper", true_pd.upper())] if lp == 64 else fit(true_pd, lp, 64)
     for pd_name, pd in (pd_cands if mask & 8 else [("true", true_pd)]):
         pd_ok = pd_name == "true"
         _, hdr = build(b"\0" * 16, b"0" * 40, b"0" * 64, pd)
@@ -185,7 +185,7 @@ def replay_c03(ctx, fl):
         cands = {
             "md5": fit(t_md5, ml, 16) or [("true", t_md5), ("header only", hashlib.md5(hdr).digest()), ("payload only", hashlib.md5(content).digest()), ("junk", b"\x55" * 16)],
             "sha1": fit(t_sha1, l1, 40) or [("true", t_sha1), ("header+payload", hashlib.sha1(hdr + content).hexdigest().encode()), ("upper", t_sha1.upper()), ("junk", b"5" * 40)],
-            "sha256": fit(t_sha256, l2, 64) or [("true", t_sha256), ("header+payload", hashlib.sha256(hdr + content).hexdigest().encode()), ("payload", true_pd), ("junk", b"5" * 64)],
+            "sha256": fit(t_sha256, l2, 64) or [("true", t_sha256), ("header+payload", hashlib.sha256(hdr + content).hexdigest().encode()), ("payload", true_pd), ("upper", t_sha256.upper()), ("junk", b"5" * 64)],
         }
         for (n1, m), (n2, s1), (n3, s2) in itertools.product(cands["md5"] if mask & 1 else [("-", b"\0" * 16)], cands["sha1"] if mask & 2 else [("-", b"0" * 40)],
                                                            cands["sha256"] if mask & 4 else [("-", b"0" * 64)]):
@@ -1438,14 +1438,18 @@ def struct_fields(name, known):
     raise Unsupported("struct %s not found in the source" % name)
 
 
-def c04_fileiter(ctx, nbytes):
+def c04_fileiter(ctx, nbytes, stripped=False):
     """FileIterator::next on a payload that starts with a well-formed newc entry (name "a", `nbytes` content bytes) while the header's
     file entry carries a symbolic (untrusted) size: no panic, no allocation out of proportion to the input"""
     nx = ctx.find_fn(r"package::<impl at [^>]*>::next")
     ex = Exec(ctx.funcs, intrinsics.I, max_steps=400000)
     ctx.stats = ex.stats
     import rpmbytes as RB
-    arch = RB.cpio_newc([(b"a", 0o100644, b"x" * nbytes)])
+    if stripped:
+        # the large-file ("stripped") format: magic 07070X, an 8-digit index into the header's file list, then the data; sizes come from the header
+        arch = b"07070X" + b"00000000" + b"x" * nbytes + b"\0" * ((4 - (14 + nbytes) % 4) % 4) + RB.cpio_newc([])
+    else:
+        arch = RB.cpio_newc([(b"a", 0o100644, b"x" * nbytes)])
     ALLOC_BUDGET[0] = 16 * len(arch) + 4096
     intrinsics2.ITEM_BUDGET[0] = len(arch) + 4200
     ctx.bounds = ("FileIterator::next over a %d-byte newc archive (one entry of %d content bytes, content symbolic, then the trailer) whose header file entry has a symbolic 64-bit size; "
@@ -1480,10 +1484,10 @@ def c04_fileiter(ctx, nbytes):
             ctx.fail("payload iteration: allocation out of proportion to the input", "FileIterator::next", kind="fileiter", size=size, nbytes=nbytes, detail=str(v))
             return
         if k != "return":
-            ctx.fail("payload iteration panics: %s" % (v,), "FileIterator::next", kind="fileiter", size=size, nbytes=nbytes)
+            ctx.fail("payload iteration panics: %s" % (v,), "FileIterator::next", kind="fileiter", size=size, nbytes=nbytes, stripped=stripped)
             return
         ctx.cover("an entry is returned", v.variant == "Some")
-        if v.variant == "Some" and v.fields[0].variant == "Ok":
+        if v.variant == "Some" and v.fields[0].variant == "Ok" and not stripped:
             got = as_bytes(e, v.fields[0].fields[0].fields[1])
             if len(got) != nbytes or (nbytes and e._check(z3.Not(all_eq(got, inp["content"])))):
                 ctx.fail("payload iteration returns other bytes than the archive stores for the entry", "FileIterator::next", kind="fileiter", size=size, nbytes=nbytes)
@@ -1508,6 +1512,8 @@ def replay_fileiter(ctx, fl):
 
 for _n in (0, 1, 3, 4):
     HARNESSES["c04_fileiter_%d" % _n] = (lambda n: (lambda ctx: c04_fileiter(ctx, n)))(_n)
+for _n in (0, 5):
+    HARNESSES["c04_fileiter_stripped_%d" % _n] = (lambda n: (lambda ctx: c04_fileiter(ctx, n, stripped=True)))(_n)
 REPLAYERS["c04"] = (lambda prev: (lambda ctx, fl: replay_fileiter(ctx, fl) if fl.get("kind") == "fileiter" else prev(ctx, fl)))(REPLAYERS["c04"])
 
 
@@ -2325,6 +2331,88 @@ def c05_file_entries(ctx, n, long_sizes):
                 ctx.fail("file entry %d does not carry the per-file attributes of the header (mtime, size, flags, owner, link target, path)" % i, "PackageMetadata::get_file_entries", kind="c05fe", n=n, long=long_sizes)
                 return
     ex.run_all(setup, body, on_path)
+
+
+PER_FILE_TAGS = ("FILEMODES", "FILEUSERNAME", "FILEGROUPNAME", "FILEDIGESTS", "FILEMTIMES", "FILEFLAGS", "FILELINKTOS", "FILESIZES", "DIRINDEXES", "FILECAPS")
+
+
+def c04_file_entries_short(ctx, short_tag, n=2):
+    """get_file_entries on a header with n files in which ONE per-file array has one item fewer than the others (FILECAPS: present with n-1 items):
+    an error or a shorter list, never a panic"""
+    gf = ctx.impl_fn("get_file_entries", None, "PackageMetadata")
+    ex = Exec(ctx.funcs, intrinsics.I, max_steps=600000)
+    ctx.stats = ex.stats
+    ctx.bounds = "get_file_entries on a header with %d base names where RPMTAG_%s has %d item(s) and every other per-file array %d; values symbolic" % (n, short_tag, n - 1, n)
+
+    def setup(e):
+        return dict(v=[z3.BitVec("v%d" % i, 32) for i in range(n)], s=[sym_bytes(e, "s%d_" % i, 1, 0x61, 0x7a) for i in range(n)])
+
+    def body(e, inp):
+        def cnt(t):
+            return n - 1 if t == short_tag else n
+
+        def sa(t, lit=None):
+            return index_data("StringArray", VecV([string(lit if lit is not None else inp["s"][i]) for i in range(cnt(t))]))
+        ents = [
+            index_entry(tag("RPMTAG_FILEMODES"), index_data("Int16", VecV([Int(0o100644, "u16") for _ in range(cnt("FILEMODES"))]))),
+            index_entry(tag("RPMTAG_FILEUSERNAME"), sa("FILEUSERNAME")), index_entry(tag("RPMTAG_FILEGROUPNAME"), sa("FILEGROUPNAME")),
+            index_entry(tag("RPMTAG_FILEDIGESTS"), sa("FILEDIGESTS", b"")),
+            index_entry(tag("RPMTAG_FILEMTIMES"), index_data("Int32", VecV([Int(inp["v"][i], "u32") for i in range(cnt("FILEMTIMES"))]))),
+            index_entry(tag("RPMTAG_FILEFLAGS"), index_data("Int32", VecV([Int(inp["v"][i], "u32") for i in range(cnt("FILEFLAGS"))]))),
+            index_entry(tag("RPMTAG_FILELINKTOS"), sa("FILELINKTOS")),
+            index_entry(tag("RPMTAG_FILESIZES"), index_data("Int32", VecV([Int(inp["v"][i], "u32") for i in range(cnt("FILESIZES"))]))),
+            index_entry(tag("RPMTAG_BASENAMES"), index_data("StringArray", VecV([string(inp["s"][i]) for i in range(n)]))),
+            index_entry(tag("RPMTAG_DIRINDEXES"), index_data("Int32", VecV([Int(0, "u32") for _ in range(cnt("DIRINDEXES"))]))),
+            index_entry(tag("RPMTAG_DIRNAMES"), index_data("StringArray", VecV([string(b"/d/")]))),
+            index_entry(tag("RPMTAG_FILECAPS"), sa("FILECAPS", b"")),
+        ]
+        from rpmvals import metadata
+        return e.call_fn(gf, [Ref(Cell(metadata(header([], []), header(ents, []))))])
+
+    def on_path(e, inp, out):
+        k, v = out
+        if k != "return":
+            ctx.fail("file entry listing panics: %s" % (v,), "PackageMetadata::get_file_entries", kind="c04feshort", short=short_tag, n=n)
+            return
+        ctx.cover("listing returns", True)
+    ex.run_all(setup, body, on_path)
+
+
+def replay_fe_short(ctx, fl):
+    import struct
+    import rpmbytes as RB
+    n, short = fl.get("n", 2), fl["short"]
+    T = {"BASENAMES": 1117, "DIRINDEXES": 1116, "DIRNAMES": 1118, "FILEMODES": 1030, "FILEUSERNAME": 1039, "FILEGROUPNAME": 1040, "FILEDIGESTS": 1035,
+         "FILEMTIMES": 1034, "FILESIZES": 1028, "FILEFLAGS": 1037, "FILELINKTOS": 1036, "FILECAPS": 5010}
+    ent, st = [], b""
+
+    def add(t, ty, items, align=1):
+        nonlocal st
+        st += b"\0" * ((align - len(st) % align) % align)
+        ent.append((T[t], ty, len(st), len(items)))
+        st += b"".join(items)
+    c = lambda t: n - 1 if t == short else n  # noqa: E731
+    add("FILESIZES", "Int32", [struct.pack(">I", 1)] * c("FILESIZES"), 4)
+    add("FILEMODES", "Int16", [struct.pack(">H", 0o100644)] * c("FILEMODES"), 2)
+    add("FILEMTIMES", "Int32", [struct.pack(">I", 0)] * c("FILEMTIMES"), 4)
+    add("FILEDIGESTS", "StringArray", [b"\0"] * c("FILEDIGESTS"))
+    add("FILELINKTOS", "StringArray", [b"\0"] * c("FILELINKTOS"))
+    add("FILEFLAGS", "Int32", [struct.pack(">I", 0)] * c("FILEFLAGS"), 4)
+    add("FILEUSERNAME", "StringArray", [b"root\0"] * c("FILEUSERNAME"))
+    add("FILEGROUPNAME", "StringArray", [b"root\0"] * c("FILEGROUPNAME"))
+    add("DIRINDEXES", "Int32", [struct.pack(">I", 0)] * c("DIRINDEXES"), 4)
+    add("BASENAMES", "StringArray", [b"f%d\0" % i for i in range(n)])
+    add("DIRNAMES", "StringArray", [b"/d/\0"])
+    add("FILECAPS", "StringArray", [b"\0"] * c("FILECAPS"))
+    ent = [x for x in ent if x[3] > 0]
+    meta = RB.lead() + RB.sig_header([], b"") + RB.header(sorted(ent), st)
+    ans = ctx.native.ask("file_entries", meta.hex())
+    return ans == "panic", "real crate: get_file_entries on a %d-file header whose RPMTAG_%s has %d item(s) -> %s" % (n, short, n - 1, ans[:60])
+
+
+for _t in PER_FILE_TAGS:
+    HARNESSES["c04_fentries_short_" + _t] = (lambda t: (lambda ctx: c04_file_entries_short(ctx, t)))(_t)
+REPLAYERS["c04"] = (lambda prev: (lambda ctx, fl: replay_fe_short(ctx, fl) if fl.get("kind") == "c04feshort" else prev(ctx, fl)))(REPLAYERS["c04"])
 
 
 def replay_fe(ctx, fl):
